@@ -10,7 +10,8 @@
     - a base label is not [LCrash]/[LRestart] and leaves the level-0 allocator
       inside level 0 ([alloc0 <= level_span]);
     - [CWrite b]: the output id is on a level above 0 (as [batch_ok] demands) and
-      FRESH: no directory of that name exists;
+      FRESH: no directory of that name exists (see the lifetime theorems below for
+      what the allocator guarantees about names that existed EARLIER);
     - [CIndex b], [CLive b dr]: the output directory of [b] exists;
     - [CReclaim dr]: the ids are not live, not listed in the index and not the
       segment of a queued flush job.
@@ -83,23 +84,122 @@ Theorem C11_batch_guards : forall k s b,
 Proof. exact batch_hist_ok. Qed.
 Print Assumptions C11_batch_guards.
 
-(** Known finding SegmentLabelReused: a guarded, crash-free history in which every
-    batch is [batch_ok] publishes the name 10000 twice with different rows (the
-    allocator [next_out] is seeded from the index labels, 10000 was retired into
-    20000 and its directory reclaimed). *)
-Theorem C11_label_reuse_refuted :
-  exists c k l1 l2 l3 b i,
-    let s1 := crun (init c) l1 in
-    let s2 := crun (init c) (l1 ++ l2) in
-    let s3 := crun (init c) (l1 ++ l2 ++ l3) in
-    hist_ok (init c) (l1 ++ l2 ++ l3) = true /\ policy_ok k (init c) (l1 ++ l2 ++ l3) = true /\
-    In (CWrite b) l3 /\ b_out b = i /\ batch_ok (index (crun (init c) (l1 ++ l2 ++ seg1 4 ++ seg1 5))) k b = true /\
-    In i (live s1) /\ In i (index_labels (index s1)) /\ rows_of (dirs s1) i = [mkEv 0 0 0; mkEv 1 0 0] /\
-    ~ In i (live s2) /\ ~ In i (index_labels (index s2)) /\ ~ has_dir (dirs s2) i /\
-    index s2 = [(20000, [0])] /\
-    In i (live s3) /\ In i (index_labels (index s3)) /\ rows_of (dirs s3) i = [mkEv 4 0 0; mkEv 5 0 0].
-Proof. exact label_reuse_refuted. Qed.
-Print Assumptions C11_label_reuse_refuted.
+(** ** Output ids within one process lifetime (former finding SegmentLabelReused,
+    repaired by a19e65f).
+
+    [plabel] adds [PStart], the start of a planning round, to the labels.  [prun k p ls]
+    carries the planner's bookkeeping of ONE process lifetime: [p_lab] = the index
+    labels at every round start so far ([Compaction.seen_round_start]); [p_routs] =
+    the output ids taken in the current round ([seen_batch]); [p_rix] = the index of
+    the current round start, against which the batches of the round are planned.  A
+    [LCrash] or [LRestart] label ENDS the lifetime: [p_lab] is RESET to [[]].  [p_ok]
+    accumulates [cstep_ok] for every non-crash step and, for every [CWrite b],
+    [batch_ok_fresh (p_routs p ++ p_lab p) (p_rix p) k b] = [batch_ok] and, when
+    [Params.compaction_ids_fresh_in_lifetime] (regenerated from policy.rs), [b_out b]
+    not in [p_routs p ++ p_lab p].  [no_pcrash ls]: no crash/restart label, i.e. [ls]
+    lies inside one lifetime; [no_pstart ls]: inside one round.  The theorems below
+    are proved for the regenerated flag [true]; on the unrepaired text the flag is
+    [false] and their proofs fail. *)
+
+(** Every output id of a lifetime is new: it differs from every label that was in
+    the index at any round start of the lifetime so far (and from the labels
+    remembered at the beginning), and from every output id taken earlier in the same
+    round. *)
+Theorem C11_ids_fresh_in_lifetime : forall k p ls,
+  no_pcrash ls -> p_ok (prun k p ls) = true ->
+  forall l1 b l2, ls = l1 ++ PStep (CWrite b) :: l2 ->
+    ~ In (b_out b) (p_lab p) /\
+    (forall a r, l1 = a ++ PStart :: r -> ~ In (b_out b) (index_labels (index (p_s (prun k p a))))) /\
+    (forall a b' r, l1 = a ++ PStep (CWrite b') :: r -> no_pstart r -> b_out b' <> b_out b).
+Proof. exact ids_fresh_in_lifetime. Qed.
+Print Assumptions C11_ids_fresh_in_lifetime.
+
+(** Inside one planning round the output ids are pairwise distinct. *)
+Theorem C11_round_outs_nodup : forall k p ls,
+  no_pcrash ls -> no_pstart ls -> p_ok (prun k p ls) = true -> NoDup (outs ls).
+Proof. exact round_outs_nodup. Qed.
+Print Assumptions C11_round_outs_nodup.
+
+(** Hence, with the guards, in a lifetime that starts from the empty store a
+    directory that some step creates
+    - on level 0 (a flush directory) has a name that no directory had at ANY earlier
+      state of the lifetime (the level-0 allocator only grows);
+    - above level 0 is the output of a [CWrite], and its name was not listed in the
+      index at any earlier round start of the lifetime.
+    A name published once (listed in the index when a planning round started) is
+    never created again before the next restart. *)
+Theorem C11_name_never_recreated : forall k c ls,
+  no_pcrash ls -> p_ok (prun k (pinit c) ls) = true ->
+  forall l1 l l2 i, ls = l1 ++ l :: l2 ->
+    ~ has_dir (dirs (p_s (prun k (pinit c) l1))) i ->
+    has_dir (dirs (p_s (prun k (pinit c) (l1 ++ [l])))) i ->
+    (i < level_span -> forall n, ~ has_dir (dirs (p_s (prun k (pinit c) (firstn n l1)))) i) /\
+    (level_span <= i ->
+       (exists b, l = PStep (CWrite b) /\ b_out b = i) /\
+       forall a r, l1 = a ++ PStart :: r -> ~ In i (index_labels (index (p_s (prun k (pinit c) a))))).
+Proof. exact name_never_recreated. Qed.
+Print Assumptions C11_name_never_recreated.
+
+(** The limit of the repair inside a lifetime: an output id whose batch did not reach
+    its index entry (index save failed, no crash) is not remembered; the next round
+    hands it out again ([batch_ok_fresh] accepts), over the leftover directory, which
+    was never published - the [CWrite] guard (no directory of that name) fails.
+    Observed on the engine with an injected index-save failure. *)
+Theorem C11_failed_batch_id_retaken_example :
+  let p := prun 3 (pinit 1) failed_p in
+  let b := mkBatch 10000 [0; 1; 2] [0] in
+  no_pcrash failed_p /\ p_ok p = true /\ index (p_s p) = [(0, [0]); (1, [0]); (2, [0])] /\
+  batch_ok_fresh (p_routs p ++ p_lab p) (p_rix p) 3 b = true /\
+  has_dirb (dirs (p_s p)) 10000 = true /\ cstep_ok (p_s p) (CWrite b) = false /\
+  ~ In 10000 (live (p_s p)) /\ outs (failed_p ++ [PStep (CWrite b)]) = [10000; 10000].
+Proof. exact failed_batch_id_retaken_example. Qed.
+Print Assumptions C11_failed_batch_id_retaken_example.
+
+(** The former witness of SegmentLabelReused: the history satisfies every guard up
+    to the start of round 3; the batch [4;5] -> 10000 still satisfies [batch_ok] (a
+    lower bound on the id) but is rejected by [batch_ok_fresh]; the id the repaired
+    allocator hands out (10002) is accepted. *)
+Theorem C11_label_reuse_rejected_example :
+  let p := prun 2 (pinit 1) reuse_p in
+  hist_ok (init 1) (reuse1 ++ reuse2 ++ reuse3) = true /\ policy_ok 2 (init 1) (reuse1 ++ reuse2 ++ reuse3) = true /\
+  no_pcrash reuse_p /\ p_ok p = true /\
+  p_rix p = [(20000, [0]); (4, [0]); (5, [0])] /\ In 10000 (p_lab p) /\
+  batch_ok (p_rix p) 2 rb4 = true /\ batch_ok_fresh (p_routs p ++ p_lab p) (p_rix p) 2 rb4 = false /\
+  p_ok (prun 2 (pinit 1) (reuse_p ++ lift (whole rb4 [4; 5]))) = false /\
+  batch_ok_fresh (p_routs p ++ p_lab p) (p_rix p) 2 rb4' = true /\
+  p_ok (prun 2 (pinit 1) (reuse_p ++ lift (whole rb4' [4; 5]))) = true.
+Proof. exact label_reuse_rejected_example. Qed.
+Print Assumptions C11_label_reuse_rejected_example.
+
+(** Still refuted ACROSS a restart, where [p_lab] is reset: lifetime A publishes
+    10000 (rows 0..3), retires it into 20000 and reclaims the directory; crash and
+    restart; lifetime B's first round sees the index labels {20000, 8, 9, 10, 11} only
+    and [8;9;10;11] -> 10000 satisfies [batch_ok_fresh] and every guard, so the name
+    10000 is published again with rows 8..11.  (No level-0 name is reused here:
+    the level-0 allocator continues at 9.) *)
+Theorem C11_label_reuse_across_restart_refuted :
+  exists k c lA1 lA2 lB i,
+    let restart := [PStep (CBase LCrash); PStep (CBase LRestart)] in
+    let p1 := prun k (pinit c) lA1 in
+    let p2 := prun k (pinit c) (lA1 ++ lA2) in
+    let p3 := prun k (pinit c) (lA1 ++ lA2 ++ restart) in
+    let p4 := prun k (pinit c) (lA1 ++ lA2 ++ restart ++ lB) in
+    no_pcrash (lA1 ++ lA2) /\ no_pcrash lB /\ p_ok p4 = true /\
+    In i (live (p_s p1)) /\ rows_of (dirs (p_s p1)) i = [mkEv 0 0 0; mkEv 1 0 0; mkEv 2 0 0; mkEv 3 0 0] /\
+    ~ In i (live (p_s p2)) /\ ~ has_dir (dirs (p_s p2)) i /\ In i (p_lab p2) /\
+    p_lab p3 = [] /\ alloc0 (p_s p3) = 9 /\
+    In (PStep (CWrite (mkBatch i [8; 9; 10; 11] [0]))) lB /\
+    In i (live (p_s p4)) /\ rows_of (dirs (p_s p4)) i = [mkEv 8 0 0; mkEv 9 0 0; mkEv 10 0 0; mkEv 11 0 0].
+Proof. exact label_reuse_across_restart_refuted. Qed.
+Print Assumptions C11_label_reuse_across_restart_refuted.
+
+(** Non-vacuity of the lifetime theorems. *)
+Theorem C11_ids_fresh_example :
+  let h := lift (map CBase ls_3) ++ [PStart] ++ lift (whole b_31 [1]) ++ [PStart] ++ lift (whole b_32 [0; 2]) in
+  no_pcrash h /\ p_ok (prun 2 (pinit 2) h) = true /\ outs h = [10000; 10001] /\
+  map sid (dirs (p_s (prun 2 (pinit 2) h))) = [10000; 10001].
+Proof. exact ids_fresh_example. Qed.
+Print Assumptions C11_ids_fresh_example.
 
 (** Known finding CrashLeftoverDirectoryBecomesLive: crash after [FwMkdir] (a) or
     after the files of one of two types were written (b), restart: the incomplete
